@@ -56,6 +56,7 @@ const c33Pool = "abcdefghijklmnopqrstuvwxyzABCDEFGHIJKLMNOPQRSTUVWXYZ0123456789.
 type c33gen struct {
 	r    *Rand
 	pool []byte
+	big  bool // this statement may emit payloads above 10 KiB (one copy chunk of io.Copy/WriteTo paths)
 }
 
 func (g *c33gen) alphabet() []byte {
@@ -69,6 +70,9 @@ func (g *c33gen) alphabet() []byte {
 }
 
 func (g *c33gen) size() int {
+	if g.big && g.r.Intn(3) == 0 {
+		return 10300 + g.r.Intn(3000)
+	}
 	switch x := g.r.Intn(20); {
 	case x < 10:
 		return 1 + g.r.Intn(8)
@@ -193,8 +197,10 @@ func (w *c33W) neverEnds(lim int) bool {
 
 func (g *c33gen) stmt() c33Stmt {
 	var s c33Stmt
-	s.Stages = append(s.Stages, g.head())
 	shape := g.r.Intn(10)
+	// payloads above one copy chunk: mostly where the bytes end in a file (io.Copy/WriteTo paths)
+	g.big = g.r.Intn(8) == 0 || (shape >= 8 && g.r.Intn(2) == 0)
+	s.Stages = append(s.Stages, g.head())
 	// 0-2 standalone, 3-5 head + consumer, 6-7 head + mid (+ consumer), 8-9 ... ending in a file
 	if shape >= 6 && shape <= 7 || (shape >= 8 && g.r.Intn(3) == 0) {
 		s.Stages = append(s.Stages, c33Stage{Cmd: "fn", Blocks: g.fnBody(true), Redir: g.redirs(0.85)})
@@ -236,8 +242,20 @@ func genC33(r *Rand, tier string) Case {
 	}
 	// the first run is the baseline with the production limit
 	w.Limits = append(w.Limits, 0)
+	hasBig := false
+	for _, st := range w.Stmts {
+		for _, sg := range st.Stages {
+			for _, b := range sg.Blocks {
+				hasBig = hasBig || len(b.T) > 4096
+			}
+		}
+	}
 	for k := 1; k < w.K; k++ {
 		lim := []int{1, 16, 256, 0}[r.Intn(4)]
+		if hasBig {
+			// a payload of 12 KiB through a 1-byte pipe is 12000 rounds: the step budget is for hangs
+			lim = []int{256, 4096, 0, 0}[r.Intn(4)]
+		}
 		if w.neverEnds(lim) && r.Intn(10) != 0 {
 			lim = 0
 		}
@@ -254,7 +272,11 @@ func genC33(r *Rand, tier string) Case {
 			class = "file"
 		}
 	}
-	return Case{Class: class, W: mustJSON(w), Sched: Sched{Strategy: pickStrategy(r), EstLen: 1500, MaxSteps: 60000}}
+	sc := Sched{Strategy: pickStrategy(r), EstLen: 1500, MaxSteps: 60000}
+	if hasBig {
+		sc.MaxSteps = 400000
+	}
+	return Case{Class: class, W: mustJSON(w), Sched: sc}
 }
 
 // ---------------------------------------------------------------- validity (generator discipline, also applied to shrunk cases)
